@@ -840,7 +840,98 @@ def rule_orbital_inverse(ctx):
     ctx.covered('R20.10', 'reb_rotation_to_orbital inverts reb_rotation_init_orbit: half-angle form of the product (E8) and the sum/difference relations in the general, inc~0 and inc~pi branches', n, floor=8)
 
 
+def rule_linear_map_effects(ctx):
+    """R20.11: reb_simulation_imul / iadd / isub are the linear-space operations on simulations (documented as acting on
+    positions and velocities). Their effect sets on struct reb_particle - members written directly or through a callee
+    that receives a pointer to a particle (one level, any translation unit) - must be the same six members for all
+    three; a helper that also touches the mass or the radius makes `a + b` something else than the coordinate-wise sum."""
+    tus = cfront.load_tus()
+    allf = {}
+    for c, tu in tus.items():
+        for fname, f_ in tu.funcs.items():
+            if cfront.body(f_) is not None:
+                allf.setdefault(fname, f_)
+
+    def particle_writes(fn, depth=0):
+        out = set()
+        for e in walk(cfront.body(fn)):
+            lhs = None
+            if is_assign(e):
+                lhs = e['inner'][0]
+            elif e.get('kind') == 'UnaryOperator' and e.get('opcode') in ('++', '--'):
+                lhs = e['inner'][0]
+            if lhs is not None:
+                l0 = strip(lhs, casts=True)
+                if l0.get('kind') == 'MemberExpr' and 'reb_particle' in qtype(strip(l0['inner'][0], casts=True)).replace('reb_particle_int', ''):
+                    out.add(l0['name'])
+            if e.get('kind') == 'CallExpr' and depth < 2:
+                cal = callee_name(e)
+                if cal in allf and any('struct reb_particle *' in qtype(strip(a, casts=True)) for a in call_args(e)):
+                    out |= particle_writes(allf[cal], depth + 1)
+        return out
+    tu = tus['tools.c']
+    eff = {}
+    for fname in ('reb_simulation_imul', 'reb_simulation_iadd', 'reb_simulation_isub'):
+        anchor(fname in tu.funcs, fname)
+        eff[fname] = particle_writes(tu.func(fname))
+    n = len(eff)
+    want = {'x', 'y', 'z', 'vx', 'vy', 'vz'}
+    for fname, e_ in sorted(eff.items()):
+        if e_ != want:
+            ctx.report('R20.11', '%s:effects' % fname, 'src/tools.c %s' % fname,
+                       '%s writes the particle members %s (directly or through a helper), not exactly the positions and velocities: extra %s, missing %s - the result is not the coordinate-wise linear combination of the two simulations'
+                       % (fname, sorted(e_), sorted(e_ - want), sorted(want - e_)))
+    ctx.covered('R20.11', 'effect sets of reb_simulation_imul/iadd/isub on struct reb_particle (through helpers): exactly x, y, z, vx, vy, vz', n, floor=3,
+                samples=['%s -> %s' % (k_, sorted(v_)) for k_, v_ in sorted(eff.items())])
+
+
+def rule_constructor_copies(ctx):
+    """R20.12: Rotation * vector is implemented as `vec = Vec3d(other)` followed by an in-place rotation of vec's storage, so
+    the Vec3d constructor is relied upon to copy. Ownership rule: the storage attribute of the vector classes is only ever
+    assigned a freshly constructed object (a call), never a name that may alias a constructor argument (the argument
+    itself, an element or attribute of it, or a local assigned from one of those without a constructing call)."""
+    import ast
+    db = pyfront.pydb()
+    path = [p_ for p_ in db.files if p_.endswith('vectors.py')]
+    anchor(path, 'rebound/vectors.py')
+    tree = db.files[path[0]]
+    n = 0
+    for cls in [c for c in ast.walk(tree) if isinstance(c, ast.ClassDef)]:
+        for fn in [f for f in cls.body if isinstance(f, ast.FunctionDef) and f.name == '__init__']:
+            params = {a.arg for a in fn.args.args if a.arg != 'self'}
+            if fn.args.vararg:
+                params.add(fn.args.vararg.arg)
+
+            def may_alias(e, aliases):
+                if isinstance(e, ast.Name):
+                    return e.id in aliases
+                if isinstance(e, (ast.Subscript, ast.Attribute)):
+                    return may_alias(e.value, aliases)
+                if isinstance(e, ast.IfExp):
+                    return may_alias(e.body, aliases) or may_alias(e.orelse, aliases)
+                return False            # calls, literals, arithmetic build new objects
+            aliases = set(params)
+            changed = True
+            while changed:
+                changed = False
+                for a_ in ast.walk(fn):
+                    if isinstance(a_, ast.Assign) and len(a_.targets) == 1 and isinstance(a_.targets[0], ast.Name) and a_.targets[0].id not in aliases and may_alias(a_.value, aliases):
+                        aliases.add(a_.targets[0].id)
+                        changed = True
+            for a_ in ast.walk(fn):
+                if isinstance(a_, ast.Assign):
+                    for t in a_.targets:
+                        if isinstance(t, ast.Attribute) and isinstance(t.value, ast.Name) and t.value.id == 'self':
+                            n += 1
+                            if may_alias(a_.value, aliases):
+                                ctx.report('R20.12', '%s.__init__:%s:alias' % (cls.name, t.attr), 'rebound/vectors.py:%d %s.__init__' % (a_.lineno, cls.name),
+                                           'self.%s is bound to %s, which may be (part of) a constructor argument: the new vector shares its storage with the caller\'s object, and Rotation.__mul__ rotates that storage in place - `q * v` then changes v' % (t.attr, ast.unparse(a_.value)))
+    ctx.covered('R20.12', 'storage attributes assigned in the constructors of the vector classes are fresh objects, not aliases of arguments', n, floor=1)
+
+
 def run(ctx):
+    rule_constructor_copies(ctx)
+    rule_linear_map_effects(ctx)
     rule_orbital_inverse(ctx)
     rule_unit_quaternions(ctx)
     rule_com_variations(ctx)
